@@ -125,6 +125,10 @@ func genC17Value(c *rt.C, quick bool) c17Value {
 		maps = append(maps, m)
 	}
 	v.cmap = ref.RenderFile(rng, maps)
+	// a font file with seac composites, including a composite of a composite
+	mf := genModelFontOpt(rng, true)
+	mf.lay.Container = "pfa"
+	v.seacPFA = ref.RenderType1(rng, mf.w, mf.lay)
 	return v
 }
 
@@ -148,6 +152,8 @@ func c17Digests(v c17Value) []string {
 	if f2 != nil {
 		out = append(out, fmt.Sprintf("Font.GlyphList %s", sha([]byte(strings.Join(f2.GlyphList(), "\x00")))))
 	}
+	f3, err := type1.Read(bytes.NewReader(v.seacPFA))
+	out = append(out, fmt.Sprintf("type1.Read/seac %s err=%v", fontDigest(f3), err))
 	buf.Reset()
 	err = v.metrics.Write(&buf)
 	afmBytes := append([]byte(nil), buf.Bytes()...)
